@@ -136,7 +136,7 @@ func (w *world) read(what string, key string, rev uint64, list bool) {
 }
 
 func c02Scenario(c c02Cfg) *mc.Scenario {
-	return &mc.Scenario{Name: c.name(), Body: func(x *mc.X) {
+	return &mc.Scenario{Name: c.name(), TolerateNondet: c.w.engine != hx.Mem, Body: func(x *mc.X) {
 		w := newWorld(c.w.engine, 16)
 		defer w.close()
 		st := w.buildInit(c.w.init, sharedKey)
